@@ -12,3 +12,5 @@ open HmcVerif.C14
 #print axioms laplace_generate
 #print axioms uniform_generate_in_box
 #print axioms logspace_generate
+#print axioms normalize_history
+#print axioms never_normalized
